@@ -135,6 +135,61 @@ theorem record_layout (plus : Bool) (d : DirEnt) (e : Entry) :
   unfold recordBytes direntChunks
   cases plus <;> simp [List.foldl]
 
+/-! ### notifications -/
+
+/-- pieces that fit are sent as one message: their concatenation -/
+theorem notifyMsg_fits (cap : Nat) (pieces : List Bytes)
+    (h : (pieces.foldl (· ++ ·) []).length ≤ cap) (hne : pieces.foldl (· ++ ·) [] ≠ []) :
+    notifyMsg cap pieces = ({ sys := [pieces.foldl (· ++ ·) []] }, .ok (pieces.foldl (· ++ ·) []).length) := by
+  unfold notifyMsg
+  rw [writeChunks_ok cap 0 pieces (by simpa using h)]
+  simp [hne]
+
+/-- **notify_inval_entry** carries the given arguments with a length equal to its size: one
+    write of `header(len = 32 + |name| + 1, code 3, unique 0) ++ parent ++ namelen ++ 0 ++ name ++ NUL`,
+    where `namelen` excludes the NUL — for every name and parent. -/
+theorem notify_inval_entry_encoding (cap parent : Nat) (name : Bytes)
+    (hcap : 32 + name.length + 1 ≤ cap) (hlen : 32 + name.length + 1 < 2 ^ 32) :
+    (notifyInvalEntry cap parent name).1.sys =
+      [outHeader (32 + name.length + 1) 3 0 ++ (le64 parent ++ le32 name.length ++ le32 0) ++ (name ++ [0])] ∧
+    (notifyInvalEntry cap parent name).2 = .ok (32 + name.length + 1) ∧
+    msgLen (outHeader (32 + name.length + 1) 3 0 ++ (le64 parent ++ le32 name.length ++ le32 0) ++ (name ++ [0]))
+      = 32 + name.length + 1 := by
+  have hfold : ([outHeader (OUT_HDR + 16 + (name.length + 1)) 3 0, le64 parent ++ le32 name.length ++ le32 0,
+      name ++ [0]] : List Bytes).foldl (· ++ ·) [] =
+      outHeader (32 + name.length + 1) 3 0 ++ (le64 parent ++ le32 name.length ++ le32 0) ++ (name ++ [0]) := by
+    have e : OUT_HDR + 16 + (name.length + 1) = 32 + name.length + 1 := by unfold OUT_HDR; omega
+    rw [e]; simp [List.foldl]
+  unfold notifyInvalEntry
+  rw [notifyMsg_fits cap _ (by rw [hfold]; simp [outHeader_length]; omega)
+    (by rw [hfold]; intro h; have := congrArg List.length h; simp [outHeader_length] at this)]
+  rw [hfold]
+  refine ⟨rfl, by simp [outHeader_length]; omega, ?_⟩
+  rw [List.append_assoc, msgLen_header, Nat.mod_eq_of_lt hlen]
+
+/-- **notify_inval_inode**: 40 bytes, code 2, the three arguments in order. -/
+theorem notify_inval_inode_encoding (cap ino off len : Nat) (hcap : 40 ≤ cap) :
+    (notifyInvalInode cap ino off len).1.sys = [outHeader 40 2 0 ++ (le64 ino ++ le64 off ++ le64 len)] ∧
+    (notifyInvalInode cap ino off len).2 = .ok 40 := by
+  unfold notifyInvalInode
+  have hfold : ([outHeader (OUT_HDR + 24) 2 0, le64 ino ++ le64 off ++ le64 len] : List Bytes).foldl (· ++ ·) [] =
+      outHeader 40 2 0 ++ (le64 ino ++ le64 off ++ le64 len) := by simp [List.foldl, OUT_HDR]
+  rw [notifyMsg_fits cap _ (by rw [hfold]; simp [outHeader_length]; omega)
+    (by rw [hfold]; intro h; have := congrArg List.length h; simp [outHeader_length] at this)]
+  rw [hfold]
+  exact ⟨rfl, by simp [outHeader_length]⟩
+
+/-- **notify_resend**: the bare 16-byte header with code 7. -/
+theorem notify_resend_encoding (cap : Nat) (hcap : 16 ≤ cap) :
+    (notifyResend cap).1.sys = [outHeader 16 7 0] ∧ (notifyResend cap).2 = .ok 16 := by
+  unfold notifyResend
+  have hfold : ([outHeader OUT_HDR 7 0] : List Bytes).foldl (· ++ ·) [] = outHeader 16 7 0 := by
+    simp [List.foldl, OUT_HDR]
+  rw [notifyMsg_fits cap _ (by rw [hfold]; simp [outHeader_length]; omega)
+    (by rw [hfold]; intro h; have := congrArg List.length h; simp [outHeader_length] at this)]
+  rw [hfold]
+  exact ⟨rfl, by simp [outHeader_length]⟩
+
 /-- non-vacuity of `dirents_whole_aligned`: a concrete two-entry directory and capacity -/
 example : (24 : Nat) + 16 ≤ ({ fusedev := true, cap := 4096 } : Cfg).cap := by decide
 
